@@ -103,6 +103,7 @@ def run(ctx):
     sc.validate(ctx, results, CLAUSES)
     ctx.stage("trace validation")
     c01.replay_known(ctx)
+    sc.replay_known(ctx, ("ord", "un"), CLAUSES)
 
 
 def replay(path):
